@@ -53,6 +53,54 @@ fn token_contract() -> Box<dyn Contract<Empty>> {
         cw20_base::contract::query,
     ))
 }
+// A cw20 that is NOT laid out like stock cw20-base: the same code running under a storage namespace (as a token embedded
+// in a larger contract, or an older layout, would be).  To every query and message of the cw20 interface it behaves exactly
+// like cw20-base, so the model's token is exact for it; only code that reads a token's raw storage can tell the difference.
+const LEDGER_NAMESPACE: &[u8] = b"ledger";
+fn ns_instantiate(
+    deps: cosmwasm_std::DepsMut,
+    env: cosmwasm_std::Env,
+    info: cosmwasm_std::MessageInfo,
+    msg: cw20_base::msg::InstantiateMsg,
+) -> Result<cosmwasm_std::Response, cw20_base::ContractError> {
+    let mut storage = cosmwasm_storage::PrefixedStorage::new(deps.storage, LEDGER_NAMESPACE);
+    let deps = cosmwasm_std::DepsMut {
+        storage: &mut storage,
+        api: deps.api,
+        querier: deps.querier,
+    };
+    cw20_base::contract::instantiate(deps, env, info, msg)
+}
+fn ns_execute(
+    deps: cosmwasm_std::DepsMut,
+    env: cosmwasm_std::Env,
+    info: cosmwasm_std::MessageInfo,
+    msg: cw20_base::msg::ExecuteMsg,
+) -> Result<cosmwasm_std::Response, cw20_base::ContractError> {
+    let mut storage = cosmwasm_storage::PrefixedStorage::new(deps.storage, LEDGER_NAMESPACE);
+    let deps = cosmwasm_std::DepsMut {
+        storage: &mut storage,
+        api: deps.api,
+        querier: deps.querier,
+    };
+    cw20_base::contract::execute(deps, env, info, msg)
+}
+fn ns_query(
+    deps: cosmwasm_std::Deps,
+    env: cosmwasm_std::Env,
+    msg: cw20_base::msg::QueryMsg,
+) -> cosmwasm_std::StdResult<cosmwasm_std::Binary> {
+    let storage = cosmwasm_storage::ReadonlyPrefixedStorage::new(deps.storage, LEDGER_NAMESPACE);
+    let deps = cosmwasm_std::Deps {
+        storage: &storage,
+        api: deps.api,
+        querier: deps.querier,
+    };
+    cw20_base::contract::query(deps, env, msg)
+}
+fn namespaced_token_contract() -> Box<dyn Contract<Empty>> {
+    Box::new(ContractWrapper::new(ns_execute, ns_instantiate, ns_query))
+}
 fn router_contract() -> Box<dyn Contract<Empty>> {
     Box::new(ContractWrapper::new(
         halo_router::contract::execute,
@@ -358,7 +406,7 @@ impl World {
                 .wrap()
                 .query_wasm_smart(addr_s(p), &PairQueryMsg::Pair {});
             match pi {
-                Err(_) => s.extend(std::iter::repeat(0).take(35)),
+                Err(_) => s.extend(std::iter::repeat(0).take(36)),
                 Ok(pi) => {
                     s.push(1);
                     for a in pi.asset_infos.iter() {
@@ -421,6 +469,15 @@ impl World {
                             s.push(r.asset_decimals[1] as u128);
                         }
                     }
+                    // which USERS the pair's whitelist names, as a bit mask over user indices
+                    let mut mask = 0u128;
+                    for a in pi.requirements.whitelist.iter() {
+                        let id = addr_id(a.as_str());
+                        if id >= 1000 && id < 1000 + 120 {
+                            mask |= 1u128 << (id - 1000);
+                        }
+                    }
+                    s.push(mask);
                 }
             }
         }
@@ -966,6 +1023,7 @@ fn init(c: &mut Cur) -> World {
     let pair_code2 = app.store_code(pair_contract());
     let token_code2 = app.store_code(token_contract());
     assert_eq!((pair_code, token_code, pair_code2, token_code2), (2, 3, 5, 6));
+    let ns_token_code = app.store_code(namespaced_token_contract());
     let owner = Addr::unchecked(addr_s(1000));
     let f = app
         .instantiate_contract(
@@ -995,9 +1053,15 @@ fn init(c: &mut Cur) -> World {
         .unwrap();
     assert_eq!(r.as_str(), "contract1");
     for (i, d) in tdec.iter().enumerate() {
+        // the last of several asset tokens is the namespaced cw20
+        let code = if i + 1 == tdec.len() && tdec.len() >= 2 {
+            ns_token_code
+        } else {
+            token_code
+        };
         let t = app
             .instantiate_contract(
-                token_code,
+                code,
                 owner.clone(),
                 &cw20_base::msg::InstantiateMsg {
                     name: format!("token{}", i),
